@@ -448,6 +448,35 @@ func dependsOn(v ssa.Value, pred func(ssa.Value) bool) bool {
 				return false
 			}
 		}
+		if al, ok := v.(*ssa.Alloc); ok {
+			// whatever is stored into the allocation or its elements/fields
+			var refs func(addr ssa.Value, d int) bool
+			refs = func(addr ssa.Value, d int) bool {
+				if addr.Referrers() == nil || d > 3 {
+					return false
+				}
+				for _, ref := range *addr.Referrers() {
+					switch x := ref.(type) {
+					case *ssa.Store:
+						if x.Addr == addr && walk(x.Val, depth+1) {
+							return true
+						}
+					case *ssa.IndexAddr:
+						if refs(x, d+1) {
+							return true
+						}
+					case *ssa.FieldAddr:
+						if refs(x, d+1) {
+							return true
+						}
+					}
+				}
+				return false
+			}
+			if refs(al, 0) {
+				return true
+			}
+		}
 		if ph, ok := v.(*ssa.Phi); ok {
 			// control dependence on the branches that select among the incoming edges
 			for _, pred := range ph.Block().Preds {
@@ -595,4 +624,26 @@ func heldAt(fn *ssa.Function, isLock, isUnlock func(ssa.CallInstruction) bool) m
 		transfer(b, in[b], rec)
 	}
 	return rec
+}
+
+// rangedSlice returns the slice (or string) a `for ... range x` loop enclosing block b iterates
+// over, together with the instruction computing its length.
+func rangedSlice(b *ssa.BasicBlock) (ssa.Value, ssa.Instruction) {
+	for d := b; d != nil; d = d.Idom() {
+		if d.Comment != "rangeindex.loop" {
+			continue
+		}
+		ifi, ok := d.Instrs[len(d.Instrs)-1].(*ssa.If)
+		if !ok {
+			continue
+		}
+		cmp, ok := ifi.Cond.(*ssa.BinOp)
+		if !ok {
+			continue
+		}
+		if call, ok := cmp.Y.(*ssa.Call); ok && callName(&call.Call) == "builtin.len" {
+			return call.Call.Args[0], call
+		}
+	}
+	return nil, nil
 }
